@@ -48,6 +48,10 @@ func (*c12) Assumptions() []string {
 var c12Mods = map[string]string{
 	"lib": "base := 10\nadd := func(a, b) { return a + b + base + 10 }\nname := \"lib\"\nexport {add: add, name: name, ten: 10, f: 2.5, c: 'x', twice: func(x) { return add(x, x) }}\n",
 	"cnt": "n := 0\nexport func() { n += 1; return n + 10 }\n",
+	// (used by C02's probes: stray break/continue in a module body; loops of a module's own)
+	"brk":  "break\nexport 1\n",
+	"cont": "x := 1\nif x { continue }\nexport x\n",
+	"lp":   "s := 0\nfor i := 0; i < 4; i++ { if i == 1 { continue }; s += i; if s > 4 { break } }\nexport s\n",
 }
 
 func c12ModuleMap() *tengo.ModuleMap {
@@ -107,6 +111,8 @@ var c12Prefixes = []string{
 	"lib := import(\"lib\")\nl2 := import(\"lib\")\nr0 := lib.add(1, 2) + l2.twice(10) + lib.ten + 10\nnm := lib.name + \"lib\" + 'x' + lib.c\n",
 	"math := import(\"math\")\ntext := import(\"text\")\nm2 := import(\"math\")\nr0 := math.abs(-2.5) + m2.pi\nr1 := text.to_upper(\"math\") + \"text\"\n",
 	"c1 := import(\"cnt\")\nc2 := import(\"cnt\")\nr0 := [c1(), c1(), c2(), 10, 10, 11]\n",
+	// two handles of one module compared with each other (tables holding functions are never equal)
+	"m1 := import(\"math\")\nm2 := import(\"math\")\nl1 := import(\"lib\")\nl2 := import(\"lib\")\nr0 := [m1 == m2, m1 != m2, l1 == l2, l1 != l2, m1.pi == m2.pi, [m1] == [m2], {m: l1} == {m: l2}]\n",
 	"f := func() { return 10 }\ng := func() { return 10 }\nh := func() { l := import(\"lib\"); return l.add(10, 10) }\nr0 := f() + g() + h() + 10\n",
 	"a := 65; b := 'A'; c := 65.0; d := \"65\"; e := [65, 'A', 65.0, \"65\", 65]; s := \"\" + \"\" + \"A\" + 'A'\n",
 	"conf := import(\"conf\")\nr0 := [conf.debug == true, conf.off == false, conf.nested.flag == false, is_undefined(conf.nothing), conf.nothing == undefined, conf.nested.list[0] == true, conf.nested.list[1] == undefined, conf.debug ? 1 : 0, conf.off || 7, conf.n + 10, conf.nested.list[2] + \"conf\"]\nr1 := [conf.debug, conf.off, conf.nothing]\nr2 := [conf.err.value == true, is_undefined(conf.errs[0].value), conf.errs[0].value == undefined, conf.errs[1].value[0] == false, conf.err.value ? 1 : 0]\n",
